@@ -10,7 +10,7 @@ RULE = ("case = (frame of 1..64 bytes incl. every CAN FD length and odd lengths,
         "Every decode/encode is observed on objects with a history: the first use of a frame is made with its signals somewhere else "
         "(then moved into place by assignment), each call is repeated, and once more after another detour; an encode request is also "
         "made with one values dict used for several selector values. A result that depends on that history is a failure. "
-        "Frames longer than 8 bytes are CAN FD frames and the next FD length above the declared one is among the payload lengths; a third of the Motorola signals are placed by set_startbit(msb number, bitNumbering=1) as a DBC reader does. One multiplexer in four is signed; 30 % of the frames carry signals with physical scaling, limits and start values; container frames with header signals and PDUs are checked against the length rule on the implementation itself (unpack with the opt-in equals unpack of the padded / cut payload). Non-trivial = distinct case whose payload is not constant or whose length differs from the declared one.")
+        "Frames longer than 8 bytes are CAN FD frames and the next FD length above the declared one is among the payload lengths; a third of the Motorola signals are placed by set_startbit(msb number, bitNumbering=1) as a DBC reader does. One multiplexer in four is signed; 30 % of the frames carry signals with physical scaling, limits and start values; container frames with header signals and PDUs are checked against the length rule on the implementation itself (unpack with the opt-in equals unpack of the padded / cut payload). Frames with extended multiplexing (root multiplexer, nested multiplexers to depth 3 with disjoint selector ranges, signals bound by 1..2 ranges, as the DBC reader records SG_MUL_VAL_) are decoded with payloads steered along a root-to-leaf path and stand in the length cases like the other kinds. Every way into the decoder is taken for every kind of frame: Frame.decode, Frame.unpack, CanMatrix.decode, CanMatrix.decode_pycan (message object with a bytearray), CanMatrix.decode in a J1939 matrix by identifier and, for another source address, by parameter group; the frame under test stands between other frames of other lengths (one with the same number in the other identifier format); the closing sweep runs all lengths 0..2*size through each of them for plain, multiplexed, extended-multiplexed and container frames. Each payload is also handed over as a bytearray: same result, buffer unchanged. Non-trivial = distinct case whose payload is not constant or whose length differs from the declared one.")
 PARTIAL = ["struct.unpack('>f'/'>d') (IEEE-754 conversion) is trusted: float signals are compared as bit patterns, NaN as a class",
            "PDU-container frames are modelled up to the length check only"]
 ASSUMPTIONS = ["signal names unique within a frame", "placements inside the frame (start+size <= 8*len); Python's negative-index "
@@ -35,6 +35,9 @@ def gen_frame(rng, kind="plain"):
                 d[7] = rng.randrange(0, 1 << w)
             d[5] = False if d[2] not in (32, 64) else d[5]
         fd["sigs"] = [mux] + sigs
+    elif kind == "cmux":
+        fd["sigs"] = gen_cmux(rng, n, sigs)
+        fd["cx"] = True
     elif kind == "container":
         fd["ct"] = True
         if rng.random() < 0.6:
@@ -47,8 +50,80 @@ def gen_frame(rng, kind="plain"):
     return fd
 
 
+def gen_cmux(rng, n, leaves):
+    """extended multiplexing as the DBC reader records it (SG_ M / m<v> / m<v>M + SG_MUL_VAL_): a root multiplexer, nested
+    multiplexers with pairwise disjoint selector ranges per parent (depth up to 3), signals bound to one of them by 1..2
+    inclusive ranges, static signals; shuffled order.  Placements are arbitrary (decoding only reads)."""
+    nbits = 8 * n
+
+    def muxer(name, wmax, signed=False, mux_val=None, grp=None, parent=None):
+        w = rng.randint(1, min(wmax, nbits))
+        return F.sigdesc(name, rng.randint(0, nbits - w), w, rng.random() < 0.5, signed, False, True, mux_val, grp, parent)
+
+    def domain(d):
+        lo, hi = F.raw_range(d)
+        return list(range(lo, hi + 1))
+
+    root = muxer("mx", 4, signed=rng.random() < 0.15)
+    muxers = [root]
+    level = [root]
+    for depth in range(rng.choice([0, 1, 1, 2])):
+        nxt = []
+        for parent in level:
+            free = domain(parent)
+            rng.shuffle(free)
+            for _k in range(rng.randint(0 if depth else 1, 2)):
+                if not free:
+                    break
+                v = free.pop()
+                grp = [[v, v]]
+                if v + 1 in free and rng.random() < 0.3:
+                    free.remove(v + 1)
+                    grp = [[v, v + 1]]
+                nxt.append(muxer("nx%d" % len(muxers), 3, False, v, grp, parent[0]))
+                muxers.append(nxt[-1])
+        level = nxt
+    for d in leaves:
+        if rng.random() < 0.75:
+            parent = rng.choice(muxers)
+            dom = domain(parent)
+            grp = []
+            for _k in range(rng.randint(1, 2)):
+                a = rng.choice(dom)
+                grp.append([a, min(dom[-1], a + rng.choice([0, 0, 1, 3]))])
+            d[7], d[8], d[9] = grp[0][0], grp, parent[0]
+    out = muxers + leaves
+    rng.shuffle(out)
+    return out
+
+
+def steer(rng, fd, data):
+    """write the selector values of a random root-to-leaf path into the payload (right-length payloads of multiplexed frames:
+    otherwise the deeper levels are rarely selected)"""
+    byname = {d[0]: d for d in fd["sigs"]}
+    bound = [d for d in fd["sigs"] if d[9] is not None]
+    if not bound or len(data) != fd["size"] or rng.random() < 0.3:
+        return data
+    data = list(data)
+    d = rng.choice(bound)
+    while d[9] is not None:
+        a, b = rng.choice(d[8])
+        v = rng.randint(a, b)
+        d = byname[d[9]]
+        for i, addr in enumerate(F.sig_addrs(d[3], d[1], d[2])):
+            if (v >> i) & 1:
+                data[addr // 8] |= 1 << (addr % 8)
+            else:
+                data[addr // 8] &= ~(1 << (addr % 8)) & 0xFF
+    return data
+
+
+# every public way into the decoder; all but "unpack" promise the refusal of a payload of another length without any opt-in
+DECODE_APIS = ["decode", "mdecode", "pycan", "jdecode", "jpgn"]
+
+
 def gen(rng, tier, shard, nshards):
-    total = {"quick": 24000, "thorough": 500000}[tier]
+    total = {"quick": 28000, "thorough": 560000}[tier]
     n = total // nshards
     for i in range(n):
         c = rng.random()
@@ -61,9 +136,19 @@ def gen(rng, tier, shard, nshards):
             fd = gen_frame(rng, "mux")
             data = F.rand_payload(rng, fd["size"])
             yield {"op": "dec", "c": {"f": fd, "data": data, "at": False, "ae": False, "api": rng.choice(["decode", "unpack"])}}
+        elif c < 0.76:
+            # frames with extended multiplexing, payload of the declared length, through every way into the decoder
+            fd = gen_frame(rng, "cmux")
+            data = steer(rng, fd, F.rand_payload(rng, fd["size"]))
+            yield {"op": "dec", "c": {"f": fd, "data": data, "at": False, "ae": False, "api": rng.choice(DECODE_APIS + ["decode", "unpack"])}}
+        elif c < 0.79:
+            # the other ways into the decoder for plain and simply multiplexed frames
+            fd = gen_frame(rng, rng.choice(["plain", "mux"]))
+            data = F.rand_payload(rng, fd["size"])
+            yield {"op": "dec", "c": {"f": fd, "data": data, "at": False, "ae": False, "api": rng.choice(["pycan", "jdecode", "jpgn"])}}
         else:
             # the length rule
-            kind = rng.choice(["plain", "plain", "mux", "container"])
+            kind = rng.choice(["plain", "plain", "mux", "container", "cmux"])
             fd = gen_frame(rng, kind)
             nxt = next((x for x in F.FD_LENGTHS if x > fd["size"]), fd["size"] + 1)      # the next CAN FD length above the declared one
             ln = rng.choice([rng.randint(0, 2 * fd["size"]), fd["size"] - 1, fd["size"] + 1, fd["size"], 0, 2 * fd["size"], nxt])
@@ -76,9 +161,7 @@ def gen(rng, tier, shard, nshards):
                     dl = 2 if pid != 99 else rng.randint(1, 3)
                     seq += [0, 0, pid, dl] + [rng.randrange(256) for _ in range(dl)]
                 data = (seq + [0] * 64)[:ln]
-            api = rng.choice(["unpack", "unpack", "unpack", "decode", "mdecode"])
-            if kind == "container" and api == "mdecode":
-                api = "decode"
+            api = rng.choice(["unpack", "unpack", "unpack", "decode", "mdecode", rng.choice(DECODE_APIS)])
             yield {"op": "dec", "c": {"f": fd, "data": data, "at": rng.random() < 0.5, "ae": rng.random() < 0.5, "api": api}}
     if shard == 0:
         # exhaustive part: every (start,width), both orders, signed and unsigned, frames of 1 and 2 bytes
@@ -97,6 +180,16 @@ def gen(rng, tier, shard, nshards):
                 for at in (False, True):
                     for ae in (False, True):
                         yield {"op": "dec", "c": {"f": fd, "data": [0x5A] * ln, "at": at, "ae": ae, "api": "unpack"}}
+        # ... and for every kind of frame through every way into the decoder (the refusal is promised for each of them, not only
+        # for Frame.unpack): all lengths 0..2*size
+        for kind in ("plain", "mux", "container", "cmux"):
+            fd = gen_frame(rng, kind)
+            while fd["size"] > 24:
+                fd = gen_frame(rng, kind)
+            for ln in range(0, 2 * fd["size"] + 1):
+                for api in DECODE_APIS + (["unpack"] if kind == "cmux" else []):
+                    for at, ae in ([(False, False), (True, False), (False, True), (True, True)] if api == "unpack" else [(False, False)]):
+                        yield {"op": "dec", "c": {"f": fd, "data": [0x5A] * ln, "at": at, "ae": ae, "api": api}}
 
 
 def neighbours(case, rng, shard, nshards):
@@ -116,14 +209,80 @@ def neighbours(case, rng, shard, nshards):
         yield {"op": "dec", "c": {"f": fd, "data": data, "at": rng.random() < 0.5, "ae": rng.random() < 0.5, "api": c["api"]}}
 
 
+class _PycanMessage(object):
+    """what python-can hands over: identifier number, extended flag, payload as a bytearray"""
+
+    def __init__(self, arbitration_id, data):
+        self.arbitration_id = arbitration_id.id
+        self.is_extended_id = arbitration_id.extended
+        self.data = bytearray(data)
+        self.dlc = len(self.data)
+
+
+class _Via(object):
+    """a way into the decoder that takes (identifier, payload) like CanMatrix.decode"""
+
+    def __init__(self, db, how, other_id=None):
+        self.db, self.how, self.other_id = db, how, other_id
+
+    def decode(self, arbitration_id, data):
+        if self.how == "pycan":
+            return self.db.decode_pycan(_PycanMessage(arbitration_id, data))
+        return self.db.decode(self.other_id or arbitration_id, data)
+
+
+def build(c):
+    """the frame and the callable way in.  The frame under test never stands alone in its matrix: a frame of another length with the
+    next identifier and one with the same number in the other identifier format stand before and behind it."""
+    api = c["api"]
+    fd = c["f"]
+    if api in ("jdecode", "jpgn"):
+        # a matrix of a J1939 network: the frame is found by its identifier or, sent by another node, by its parameter group
+        fr = F.mkframe(dict(fd, j=True), arbid=0x18FEF100 + 0x21, extended=True)
+    else:
+        fr = F.mkframe(fd)
+    if api in ("decode", "unpack"):
+        return fr, api, None
+    db = cm.CanMatrix()
+    aid = fr.arbitration_id
+    # (in the J1939 matrix the neighbour belongs to the next parameter group)
+    db.add_frame(cm.Frame("before", arbitration_id=cm.ArbitrationId(aid.id + (0x100 if aid.extended else 1), aid.extended),
+                          size=fd["size"] % 8 + 1))
+    db.add_frame(fr)
+    if aid.id <= 0x7FF:
+        other = cm.Frame("behind", arbitration_id=cm.ArbitrationId(aid.id, not aid.extended), size=fd["size"] + 1)
+        other.add_signal(cm.Signal("o", start_bit=0, size=1))
+        db.add_frame(other)
+    if api == "jpgn":
+        return fr, "mdecode", _Via(db, "decode", cm.ArbitrationId(0x18FEF100 + 0x37, True))
+    if api == "pycan":
+        return fr, "mdecode", _Via(db, "pycan")
+    return fr, "mdecode", db
+
+
 def observe(case):
     c = case["c"]
-    fr = F.mkframe(c["f"])
-    db = None
-    if c["api"] == "mdecode":
-        db = cm.CanMatrix()
-        db.add_frame(fr)
-    return F.observe_decode(fr, c["data"], c["api"], c["at"], c["ae"], db)
+    fr, api, db = build(c)
+    r = F.observe_decode(fr, c["data"], api, c["at"], c["ae"], db)
+    # the payload may come as a bytearray (python-can delivers one): same result, and the caller's buffer is left alone
+    buf = bytearray(c["data"])
+
+    def once(payload):
+        try:
+            if api == "unpack":
+                d = fr.unpack(payload, allow_truncated=c["at"], allow_exceeded=c["ae"])
+            elif api == "mdecode":
+                d = db.decode(fr.arbitration_id, payload)
+            else:
+                d = fr.decode(payload)
+        except Exception as e:  # noqa
+            return "raised " + F.errname(e)
+        return F._plain(d)
+    if once(buf) != once(bytes(c["data"])):
+        return {"err": "exc:result-differs-for-a-bytearray-payload"}
+    if bytes(buf) != bytes(c["data"]):
+        return {"err": "exc:the-callers-payload-buffer-was-changed"}
+    return r
 
 
 def project(impl):
@@ -137,7 +296,11 @@ def features(case, impl):
     yield "len=%d" % fd["size"] if fd["size"] in (1, 8, 12, 64) else "len=other"
     ln = len(c["data"])
     yield "payload " + ("==" if ln == fd["size"] else "<" if ln < fd["size"] else ">") + " declared"
-    yield "kind=" + ("container" if fd.get("ct") else "mux" if any(s[6] for s in fd["sigs"]) else "plain")
+    yield "kind=" + ("container" if fd.get("ct") else "extended-mux" if fd.get("cx") else "mux" if any(s[6] for s in fd["sigs"]) else "plain")
+    if fd.get("cx"):
+        yield "extended-mux: multiplexers=%d" % sum(1 for s in fd["sigs"] if s[6])
+        if "ok" in impl and isinstance(impl["ok"], dict):
+            yield "extended-mux: active multiplexers=%d" % sum(1 for s in fd["sigs"] if s[6] and s[0] in impl["ok"])
     yield "result=" + ("err:" + impl["err"] if "err" in impl else "ok")
     for s in fd["sigs"]:
         yield "sig:%s%s%s" % ("intel" if s[3] else "motorola", "/float" if s[5] else "/signed" if s[4] else "/unsigned",
